@@ -39,6 +39,11 @@ def _arith_un(op, v):
         if op == 'sqrt':
             return math.sqrt(v)
         if op == 'exp':
+            if SATURATE:
+                try:
+                    return math.exp(v)
+                except OverflowError:
+                    return INF
             return math.exp(v)
         if op == 'ln':
             return math.log(v)
@@ -47,7 +52,20 @@ def _arith_un(op, v):
     raise ValueError(op)
 
 
+# When True, a power / exponential that exceeds the float range is the correctly signed infinity instead of undefined
+# (used where a monitor's answer for such a sample is judged by its sign; a monitor that raises is a data fault as before).
+SATURATE = False
+
+
 def _arith_bin(op, a, b):
+    if SATURATE and op == 'pow':
+        try:
+            return math.pow(a, b)
+        except OverflowError:
+            odd = float(b).is_integer() and int(b) % 2 == 1
+            return -INF if (a < 0 and odd) else INF
+        except (ValueError, ZeroDivisionError) as e:
+            raise Undefined(str(e))
     try:
         if op == '+':
             return a + b
